@@ -60,6 +60,11 @@ type stEmbedded struct {
 	stBase
 	N int
 }
+type stEmbeddedPtr struct {
+	*stBase
+	N int
+}
+type namedInt int
 
 const longKey = "aVeryLongFieldNameThatIsLongerThanThirtyTwoBytes"
 
@@ -111,6 +116,19 @@ func mkValue(kind string) any {
 		return stUnexported{name: "abc", n: 1, f: 2, Name: "abc"}
 	case "struct-embedded":
 		return stEmbedded{stBase{"abc"}, 1}
+	case "struct-embedded-nil-ptr":
+		return stEmbeddedPtr{nil, 1} // the promoted field Name sits behind a nil embedded pointer
+	case "struct-embedded-ptr":
+		return stEmbeddedPtr{&stBase{"abc"}, 1}
+	case "ptr-ptr-nil-struct":
+		var inner *stExported
+		return &inner
+	case "uint8":
+		return uint8(7)
+	case "int16":
+		return int16(-7)
+	case "named-int":
+		return namedInt(7)
 	case "struct-empty":
 		return struct{}{}
 	case "ptr-struct":
@@ -224,6 +242,13 @@ func mkSchema(name string) panicSchema {
 		return panicSchema{z.Slice(base()), reflect.TypeOf([]dStruct{})}
 	case "struct":
 		return panicSchema{base(), reflect.TypeOf(dStruct{})}
+	case "struct-cap":
+		// schema keys spelled like Go field names: this is how a Go struct INPUT is addressed
+		return panicSchema{z.Struct(z.Schema{"Name": z.String().Required(), "N": z.Int(), "F": z.Slice(z.Int())}), reflect.TypeOf(struct {
+			Name string
+			N    int
+			F    []int
+		}{})}
 	case "struct-long-key":
 		t := reflect.StructOf([]reflect.StructField{{Name: strings.ToUpper(longKey[:1]) + longKey[1:], Type: reflect.TypeOf("")}, {Name: "N", Type: reflect.TypeOf(0)}})
 		return panicSchema{z.Struct(z.Schema{longKey: z.String().Required(), "n": z.Int()}), t}
